@@ -435,6 +435,8 @@ luaL_setfuncs({LUA_state_var}, {LUA_class_reg}, 0);
 
         #        fmt_func = node.fmtdict
         fmtargs = node._fmtargs
+        # Each overload may be a different template instantiation.
+        fmt_func.CXX_template = node.fmtdict.CXX_template
         #        fmt = util.Scope(fmt_func)
         #        fmt.doc_string = 'documentation'
         #        node.eval_template('LUA_name')
@@ -954,7 +956,7 @@ lua_statements = [
         # Used with intent(result).
         name="lua_mixin_callfunction",
         call=[
-            "{rv_asgn}{LUA_this_call}{function_name}({cxx_call_list});",
+            "{rv_asgn}{LUA_this_call}{function_name}{CXX_template}({cxx_call_list});",
         ],
     ),
 #    dict(
@@ -977,7 +979,7 @@ lua_statements = [
     dict(
         name="lua_subroutine",
         call=[
-            "{LUA_this_call}{function_name}({cxx_call_list});",
+            "{LUA_this_call}{function_name}{CXX_template}({cxx_call_list});",
         ],
     ),
     #####
